@@ -1,0 +1,46 @@
+//go:build verif
+// +build verif
+
+package db
+
+import "github.com/syndtr/goleveldb/leveldb"
+
+// Simulated-disk seams (verification builds only).
+var (
+	// SimOpenHook, when non-nil, opens the store for path instead of leveldb.OpenFile.
+	SimOpenHook func(path string) (*leveldb.DB, error)
+	// SimPreWriteHook runs before every physical write (Put, Delete, batch Write);
+	// a non-nil error is returned to the caller instead of performing the write.
+	SimPreWriteHook func(db *leveldb.DB, kind string) error
+	// SimPostWriteHook runs after every physical write returned.
+	SimPostWriteHook func(db *leveldb.DB, kind string)
+)
+
+func simOpen(file string) (*leveldb.DB, error, bool) {
+	if h := SimOpenHook; h != nil {
+		d, err := h(file)
+		return d, err, true
+	}
+	return nil, nil, false
+}
+
+func simPreWrite(db *leveldb.DB, kind string) error {
+	if h := SimPreWriteHook; h != nil {
+		return h(db, kind)
+	}
+	return nil
+}
+
+func simPostWrite(db *leveldb.DB, kind string) {
+	if h := SimPostWriteHook; h != nil {
+		h(db, kind)
+	}
+}
+
+// SimReset forgets the shared store instance so that the next NewDatabase call
+// re-opens it (restart of a node incarnation inside one process).
+func SimReset() {
+	instanceLock.Lock()
+	defer instanceLock.Unlock()
+	instance = nil
+}
